@@ -147,7 +147,7 @@ func init() {
 					return []string{"a", "build", "mybuild", "x.log", "y.tmp", "z.c", "src", "out", "a.goit", "my.goit", "log", "b.o"}
 				}}
 		})
-	checks["C18"] = histCheck("C18", []string{"C18.getEntry_never_crashes", "C18.world_readers_change_nothing", "C18.getBranchPos_never_crashes", "C18.update_never_crashes", "C18.delete_never_crashes", "C18.get_never_crashes", "C19.decodeEntries_bounded"}, histRule+"; malformed and refused invocations are weighted up",
+	checks["C18"] = histCheck("C18", []string{"C18.getEntry_never_crashes", "C18.world_readers_change_nothing", "C18.world_never_crashes", "C18.world_history_never_crashes", "C18.getBranchPos_never_crashes", "C18.update_never_crashes", "C18.delete_never_crashes", "C18.get_never_crashes", "C19.decodeEntries_bounded"}, histRule+"; malformed and refused invocations are weighted up",
 		func(ctx *Ctx) *HistCfg {
 			return &HistCfg{Prop: "C18", Cases: tierN(ctx, 250, 3000), MinSteps: 5, MaxSteps: 40,
 				W:       weights(Weights{"junk": 14, "status": 5, "reflog": 4, "log": 3, "branch-rename": 4, "reset": 6, "rm": 6, "restore": 6}),
